@@ -315,6 +315,67 @@ pub fn judge_roundtrip(text: &str, agj: &Value, dy: &Dyn, input: &str, rep: &mut
     }
 }
 
+/// One parser object over a history: before every sentence an input that fails after some shifts. The tree of the
+/// sentence must still spell the sentence (the builder and the layout state of the object are reused).
+pub fn judge_reuse(p: &Side, g: &AG, inputs: &[String], rep: &mut Rep) {
+    if inputs.is_empty() {
+        return;
+    }
+    let agj = g.to_json();
+    let mut hist: Vec<String> = vec![];
+    for i in inputs.iter().take(12) {
+        hist.push(format!("{} \u{a7}", i));
+        hist.push(i.clone());
+    }
+    let case = |upto: usize| json!({"grammar": p.text, "ag": agj, "family": p.family, "reuse_history": &hist[..upto]});
+    crate::rep::watchdog::set(|| case(hist.len()).to_string());
+    let mut results: Vec<Option<Vec<(Option<String>, String, usize)>>> = vec![];
+    let r = guarded(|| {
+        p.dy.lr_session(|parse| {
+            for i in &hist {
+                crate::rep::watchdog::touch();
+                dynp::set_step_limit(20_000 * (i.len() as u64 + 1));
+                results.push(parse(i).ok().map(|t| {
+                    let mut leaves = vec![];
+                    let mut shape = String::new();
+                    let mut errs = vec![];
+                    walk(&t, &mut leaves, &mut shape, &mut errs);
+                    leaves.iter().map(|(l, v, s, _)| (l.map(|x| x.to_string()), v.to_string(), *s)).collect()
+                }));
+            }
+        })
+    });
+    rep.count("parser_object_histories", 1);
+    if r.is_err() {
+        rep.count("history_panic_or_step_budget_not_judged_here", 1);
+        return;
+    }
+    for (k, res) in results.iter().enumerate() {
+        if k % 2 == 0 {
+            continue;
+        }
+        let Some(leaves) = res else { continue };
+        rep.count("parser_object_trees_judged", 1);
+        let input = &hist[k];
+        let mut rebuilt = String::new();
+        let mut ok = true;
+        for (l, v, s) in leaves {
+            if let Some(l) = l {
+                rebuilt.push_str(l);
+            }
+            if rebuilt.len() != *s {
+                ok = false;
+                break;
+            }
+            rebuilt.push_str(v);
+        }
+        if !ok || !input.starts_with(&rebuilt) || !is_layout(&input[rebuilt.len()..], p.family) {
+            rep.violation("C14", &format!("reuse-lossless:{}:{}", fnv(&p.text), fnv(&hist[..=k].join("\u{1}"))), &format!("tree of a reused parser object (input {} of its history) does not reproduce its input {:?}: leaves spell {:?}", k + 1, input.chars().take(60).collect::<String>(), rebuilt.chars().take(60).collect::<String>()), case(k + 1));
+            return;
+        }
+    }
+}
+
 pub fn run_lexical(g0: &AG, wd: &Workdir, rep: &mut Rep, rng: &mut Rng, only: Option<&str>) {
     let g = match only {
         Some(_) => g0.clone(),
@@ -381,11 +442,12 @@ pub fn run_grammar(g: &AG, wd: &Workdir, rep: &mut Rep, rng: &mut Rng, maxlen: u
             }
         }
     }
+    let mut reuse_inputs: Vec<Vec<String>> = vec![vec![]; sides.len()];
     for w in sentences {
         if w.is_empty() {
             continue;
         }
-        for p in &sides {
+        for (pi, p) in sides.iter().enumerate() {
             let (plain, _) = render_plain(g, &w);
             let ps = judge(p, g, &w, &plain, &None, rep, json!("plain"));
             if ps.is_none() {
@@ -401,9 +463,15 @@ pub fn run_grammar(g: &AG, wd: &Workdir, rep: &mut Rep, rng: &mut Rng, maxlen: u
                 let (input, _) = render(g, &w, |_| gen_layout(&mut r2, fam, true, false), &lead, &trail);
                 *rng = r2;
                 let _ = n;
+                if reuse_inputs[pi].len() < 12 {
+                    reuse_inputs[pi].push(input.clone());
+                }
                 judge(p, g, &w, &input, &ps, rep, json!("layout inserted"));
             }
         }
+    }
+    for (pi, p) in sides.iter().enumerate() {
+        judge_reuse(p, g, &reuse_inputs[pi], rep);
     }
     rep.sample(json!({"grammar": sides.last().map(|s| s.text.clone()), "families": sides.iter().map(|s| s.family).collect::<Vec<_>>()}));
 }
@@ -416,6 +484,18 @@ pub fn main(a: &Args) {
         let v: Value = serde_json::from_str(&std::fs::read_to_string(path).expect("read replay")).expect("json");
         let case = &v["case"];
         let g = AG::from_json(&case["ag"]);
+        if let Some(h) = case["reuse_history"].as_array() {
+            let family = case["family"].as_u64().unwrap() as u8;
+            let text = grammar_text(&g, family);
+            let c = wd.compile(&text, &SetSpec::lr(1));
+            let d = c.dump.expect("dump");
+            let side = Side { text, family, dy: Dyn::new(&d, dynp::Cfg::lr()).unwrap() };
+            // the history is (bad, good) pairs: hand the good ones over, judge_reuse rebuilds the pairs
+            let goods: Vec<String> = h.iter().enumerate().filter(|(k, _)| k % 2 == 1).map(|(_, x)| x.as_str().unwrap().to_string()).collect();
+            judge_reuse(&side, &g, &goods, &mut rep);
+            rep.finish();
+            return;
+        }
         if case["lexical"].as_bool() == Some(true) {
             run_lexical(&g, &wd, &mut rep, &mut rng, case["input"].as_str());
             rep.finish();
